@@ -92,7 +92,7 @@ static char tchar(const struct stat *st) {
 }
 
 // ---------------------------------------------------------------- tree walk
-#define MAXENT 3000
+#define MAXENT 400
 #define MAXDEPTH 6
 static int nent, truncated, first_ent = 1;
 static const char *canary;
